@@ -1,0 +1,12 @@
+//go:build verif
+
+package minibus
+
+// Machine-checked contracts for this package (comment-only; excluded from normal builds).
+
+//@ property C11 C10 C03
+//@ type Bus
+//@   guarded_by listenerM: listeners
+//@ type listener
+//@   guarded_by m: ch
+//@   lockinv m: recv.ch == nil || !chanClosed(recv.ch)
